@@ -1,5 +1,6 @@
 """C03 - commands receive exactly the arguments the build definition specifies (Ninja, shell, response-file layers)."""
 from symx.api import *
+import os
 from harness.ninjaref import (DecodeError, parse_manifest, evaluate, sh_split, buildargv, cmdline_to_argv, path_text)
 
 PROPERTY = 'C03'
@@ -554,6 +555,38 @@ def ob_test_argv():
     return h
 
 
+def ob_project_commands(dim):
+    """custom_target() and generator() commands of a WHOLE configuration (real Interpreter, real NinjaBackend.generate on a generated project without a compiled
+    language - harness/proj.py): the argv Ninja would execute for every custom target and for the generator, decoded from build.ninja with the reference Ninja
+    evaluator and sh splitter, is the command of the definition with @INPUT@ / @OUTPUT@ / @OUTPUT0@ / @OUTPUTn@ (several in ONE argument too) replaced by exactly
+    the inputs and outputs of that statement - nothing else changed"""
+    def h():
+        from harness import proj as PJ
+        pr, c, g = PJ.run_project(dim)
+        def argv_of(out):
+            st = g.stmts[g.producer[out]]
+            r = c.rules[st['rule']]
+            return st, sh_split(evaluate(r['command'], st['raw'], c.rules))
+        norm = lambda xs: [os.path.normpath(x) for x in xs]
+        for t in ('A', 'B', 'C'):
+            st, argv = argv_of(pr.outs[t][0])
+            check(len(argv) >= 3 and isinstance(argv[0], str) and argv[0].endswith('python3') and argv[1:3] == ['-c', 'pass'], 'the program and its fixed arguments arrive unchanged')
+            rest = argv[3:]
+            if t == 'A': exp = list(pr.outs['A'])
+            elif t == 'B': exp = norm(st['ins']) + [pr.outs['B'][0]]
+            else: exp = ([pr.c_cmd_dep] if pr.c_cmd_dep is not None else []) + norm(st['ins']) + list(pr.outs['C'])
+            check(norm(rest) == exp, '@INPUT@ / @OUTPUT@ / @OUTPUT0@ become exactly the inputs and outputs of the statement')
+        if pr.b_generated:
+            stb = g.stmts[g.producer[pr.outs['B'][0]]]
+            st, argv = argv_of(stb['ins'][0])
+            o0, o1 = st['outs'][0], st['outs'][1]
+            check(len(st['ins']) == 1 and argv[1:] == ['-c', 'pass', st['ins'][0], '--pair=' + o0 + ',' + o1, o1], 'generator arguments: @INPUT@ and every @OUTPUTn@ - also two in one argument - are substituted')
+            check(o0.endswith('in.c') and o1.endswith('in.h'), 'generator outputs are named after the input (@BASENAME@)')
+            cover('generator')
+        cover('done')
+    return h
+
+
 def obligations(tier):
     out = []
     q = tier == 'quick'
@@ -590,4 +623,6 @@ def obligations(tier):
         out.append(Obligation('join-split%s' % lens, ob_joinsplit(lens), dict(arg_lengths=lens), labels=('done',), max_paths=3000000))
     out.append(Obligation('link-arg-sources', ob_link_arg_sources(), dict(real='Compiler.get_build_link_args, Build.get_project_link_args / get_global_link_args', lists='0-2 symbolic 1-char strings each', targets='2-3 in sequence'), labels=('done',)))
     out.append(Obligation('test-argv', ob_test_argv(), dict(real='mtest.SingleTestRunner.__init__/run/_run_cmd/_run_subprocess, TestHarness.get_wrapper; asyncio.create_subprocess_exec recorded', args='1-2 of 1-2 chars over {a, space, $, quote, backslash}', test_args='0-1', wrapper='none | --wrapper with a symbolic argument | --gdb', protocol='exitcode | tap'), labels=('started',), max_paths=3000000))
+    out.append(Obligation('project-commands', ob_project_commands('inputs'), dict(real='Interpreter.run + NinjaBackend.generate on a generated project without a compiled language', commands='3 custom targets (@INPUT@, @OUTPUT@, @OUTPUT0@, a target output as an argument) and a generator (@INPUT@, two @OUTPUTn@ in one argument)',
+                          symbolic='build_by_default x2, build_always_stale, install, the index into a multi-output target'), labels=('done', 'generator'), max_paths=2000000, path_timeout=300))
     return out
